@@ -79,12 +79,15 @@ func (s *OpenAPI3Exporter) GenerateOpenAPI3(app *syslwrapper.App) (*openapi3.T, 
 
 	// TODO: Handle multiple environments in attributes
 	// TODO: Handle server variables
-	server := &openapi3.Server{
-		URL:         app.Attributes["env.1.url"],
-		Description: app.Attributes["env.1.description"],
-		Variables:   map[string]*openapi3.ServerVariable{},
+	// A server object must have a URL, so an application that names no environment gets no servers list.
+	if url := app.Attributes["env.1.url"]; url != "" {
+		server := &openapi3.Server{
+			URL:         url,
+			Description: app.Attributes["env.1.description"],
+			Variables:   map[string]*openapi3.ServerVariable{},
+		}
+		spec.AddServer(server)
 	}
-	spec.AddServer(server)
 	components := openapi3.NewComponents()
 	spec.Components = &components
 	spec.Components.Schemas = make(map[string]*openapi3.SchemaRef)
